@@ -25,6 +25,8 @@ pub mod streaming;
 #[cfg(feature = "symphonia")]
 mod symphonia;
 mod transport;
+#[cfg(kira_verif)]
+pub mod verif;
 
 use std::ops::{Range, RangeFrom, RangeFull, RangeTo};
 
